@@ -206,4 +206,800 @@ theorem remove_some_occ {nw : Network} {t t' : Tour} {a b : Nat} {path : List Na
   conv => lhs; rw [hsp]
   rw [occ_append, occ_append, occ_append]; omega
 
+theorem isActivity_of_not_depot {nw : Network} {x : Nat} (h : (nw.node x).isDepot = false) :
+    isActivity (nw.node x) = true := by
+  unfold isActivity Node.isService Node.isMaint
+  unfold Node.isDepot Node.isStartDepot Node.isEndDepot at h
+  cases hk : (nw.node x).kind <;> simp [hk] at h ⊢
+
+/-- `Tour::insert_path` into a real tour of valid shape: counted over activities, the new tour plus
+    the reported dropped nodes is the old tour plus the path -/
+theorem insert_occ (nw : Network) (hd : C17.DepotTimes nw) (hw : NodesWF' nw) (hap : C12.ActPos nw)
+    (t t' : Tour) (path : List Nat) (rm : Option (List Nat)) (ht : TourOK nw t) (hp : PathOK nw path)
+    (h : insertPath nw true t path = .ok (t', rm)) (n : Nat) :
+    occ nw t'.nodes n + occ nw (rm.getD []) n = occ nw t.nodes n + occ nw path n := by
+  have hc := C12.timeChain_of_chainB nw hd t.nodes ht.chain
+  have hne : 0 < t.nodes.length := by have := shape_len ht.shape; omega
+  unfold insertPath at h
+  obtain ⟨pl, hpl, h⟩ := C12.bind_ok h
+  obtain ⟨c, _, h⟩ := C12.bind_ok h
+  simp only [pure, Except.pure, Except.ok.injEq, Prod.mk.injEq] at h
+  obtain ⟨ht', hrm⟩ := h
+  obtain ⟨_, h2, h3⟩ := C12.plan_inv nw hd hw t path hc hne pl hpl
+  rw [ht.real] at h2 h3
+  have hnodes : t'.nodes = (insertRef nw false t.nodes path).1 := by rw [← ht']; exact h2
+  have hrmocc : occ nw (rm.getD []) n = occ nw (insertRef nw false t.nodes path).2 n := by
+    rw [← hrm, C12.pathTrusted_eq, h3]
+    split
+    · rfl
+    · rename_i hnd
+      simp only [Option.getD_none]
+      rw [occ_nil, occ_of_no_nonDepot nw _ n (by simpa using hnd)]
+  rw [hnodes, hrmocc]
+  obtain ⟨w, hwp, hwnd⟩ := (hasNonDepot_iff nw path).mp hp.act
+  have hpne : path ≠ [] := by intro e; subst e; cases hwp
+  have hplen : 0 < path.length := List.length_pos_iff.mpr hpne
+  unfold insertRef
+  simp only [stripForDummy, Bool.not_false, ↓reduceIte]
+  generalize hk : (if (nw.node (path.headD 0)).isDepot = true then 0 else keepPrefixLen nw t.nodes (path.headD 0)) = k
+  generalize hm : (if (nw.node (path.getLastD 0)).isDepot = true then t.nodes.length
+      else keepSuffixStart nw t.nodes (path.getLastD 0)) = m
+  have hkm : k ≤ m := by
+    by_cases hfd : (nw.node (path.headD 0)).isDepot = true
+    · simp only [hfd, ↓reduceIte] at hk; omega
+    · by_cases hld : (nw.node (path.getLastD 0)).isDepot = true
+      · simp only [hld, ↓reduceIte] at hm
+        simp only [hfd, Bool.false_eq_true, ↓reduceIte] at hk
+        rw [← hk, ← hm]; exact lastTrueLen_le _ _
+      · simp only [hfd, Bool.false_eq_true, ↓reduceIte] at hk
+        simp only [hld, Bool.false_eq_true, ↓reduceIte] at hm
+        rw [← hk, ← hm]
+        have hpc := C12.timeChain_of_chainB nw hd path hp.chain
+        have hmono := monoEnd_of_timeChain nw hw path hpc
+        have hfl := hmono 0 (path.length - 1) (by omega) (by omega)
+        have e1 : path.headD 0 = path.getD 0 0 := by
+          cases path with
+          | nil => rfl
+          | cons a as => rfl
+        have e2 : path.getLastD 0 = path.getD (path.length - 1) 0 := by
+          rw [List.getLastD_eq_getLast?, List.getLast?_eq_getElem?, List.getD_eq_getElem?_getD]
+        rw [← e1, ← e2] at hfl
+        exact C12.C12_positions_ordered nw hd hw hap t.nodes hc _ _ hfl
+          (isActivity_of_not_depot (by simpa using hld))
+  have hsplit := take_drop_split t.nodes k m hkm
+  conv => rhs; rw [hsplit]
+  simp only [occ_append]
+  omega
+
+/-! ### the public modifications -/
+
+theorem fresh_no_tour {s : Schedule} (hi : ListInv s) : assocGet? s.tours (Veh.real s.counter) = none := by
+  cases hg : assocGet? s.tours (Veh.real s.counter) with
+  | none => rfl
+  | some x =>
+    have := (hi.fresh (Veh.real s.counter) (by show (assocGet? s.tours _).isSome = true; simp [hg])).2
+    simp [Veh.real, coreOf] at this
+
+theorem real_not_dummy {s : Schedule} (hd : DummyInv s) (c : Nat) : s.isDummy (Veh.real c) = false := by
+  cases hdm : s.isDummy (Veh.real c) with
+  | false => rfl
+  | true => have := hd _ hdm; cases this
+
+theorem indO_realOf_of_not_dummy {s : Schedule} {v : Veh} (h : s.isDummy v = false) (w : Veh) :
+    indO (realOf s (some v)) w = if v = w then 1 else 0 := by
+  simp [realOf, h, indO, ind]
+
+theorem indO_realOf_none (s : Schedule) (w : Veh) : indO (realOf s none) w = 0 := rfl
+
+theorem indO_realOf_dummy {s : Schedule} {v : Veh} (h : s.isDummy v = true) (w : Veh) :
+    indO (realOf s (some v)) w = 0 := by simp [realOf, h, indO]
+
+theorem spawn_forms {nw : Network} {s s' : Schedule} {vt : Nat} {path : List Nat} {v : Veh}
+    (hi : ListInv s) (hd : DummyInv s) (hf : FormCount nw s.tours s.formations)
+    (h : spawnVehicleForPath nw s vt path = .ok (s', v)) : FormCount nw s'.tours s'.formations := by
+  unfold spawnVehicleForPath at h
+  split at h
+  · cases h
+  · obtain ⟨nodes, _, h⟩ := bind_ok h
+    dsimp only at h
+    obtain ⟨tour, _, h⟩ := bind_ok h
+    obtain ⟨ids, _, h⟩ := bind_ok h
+    obtain ⟨⟨forms, unserved⟩, hutf, h⟩ := bind_ok h
+    dsimp only at h
+    obtain ⟨usage, _, h⟩ := bind_ok h
+    obtain ⟨⟨trans, viol⟩, _, h⟩ := bind_ok h
+    simp only [pure, Except.pure, Except.ok.injEq, Prod.mk.injEq] at h
+    rw [← h.1]
+    intro n w
+    have hc := updateTrainFormation_count nw s _ none (some (Veh.real s.counter)) _ _ _ _ _ hutf n w
+    rw [indO_realOf_none, indO_realOf_of_not_dummy (real_not_dummy hd _)] at hc
+    show (formOf forms n).count w = tourOcc nw (assocSet s.tours (Veh.real s.counter) tour) w n
+    rw [tourOcc_set]
+    have h0 := hf n w
+    by_cases e : w = Veh.real s.counter
+    · subst e
+      rw [tourOcc_of_none (fresh_no_tour hi)] at h0
+      simp only [↓reduceIte] at hc ⊢
+      omega
+    · have e' : ¬ Veh.real s.counter = w := fun h => e h.symm
+      simp only [e, e', ↓reduceIte] at hc ⊢
+      omega
+
+theorem delete_forms {nw : Network} {s s' : Schedule} {v : Veh}
+    (hi : ListInv s) (hd : DummyInv s) (hf : FormCount nw s.tours s.formations)
+    (h : replaceVehicleByDummy nw s v = .ok s') : FormCount nw s'.tours s'.formations := by
+  unfold replaceVehicleByDummy at h
+  inv_do h
+  all_goals (try contradiction)
+  all_goals (try (cases h))
+  all_goals (try (simp only [pure, Except.pure, Except.ok.injEq] at *))
+  all_goals (try subst_vars)
+  all_goals (
+    have hold := unwrapO_ok (by assumption : unwrapO (assocGet? s.tours v) _ = .ok _)
+    have hv' := isVehicle_of_tour hi hold
+    intro n w
+    have hc := updateTrainFormation_count nw s _ (some v) none _ s.formations _ _ _ (by assumption) n w
+    rw [indO_realOf_none, indO_realOf_of_not_dummy (vehicle_not_dummy hi hd hv')] at hc
+    show (formOf _ n).count w = tourOcc nw (assocErase s.tours v) w n
+    rw [tourOcc_erase]
+    have h0 := hf n w
+    by_cases e : w = v
+    · subst e
+      rw [tourOcc_of_get hold] at h0
+      simp only [↓reduceIte] at hc ⊢
+      omega
+    · have e' : ¬ v = w := fun h => e h.symm
+      simp only [e, e', ↓reduceIte] at hc ⊢
+      omega)
+
+/-- the three network-level hypotheses (decidable on a loaded network, `formHypsB`) -/
+structure NetHyp (nw : Network) : Prop where
+  dt : C17.DepotTimes nw
+  wf : NodesWF' nw
+  ap : C12.ActPos nw
+
+theorem addPath_forms {nw : Network} (hn : NetHyp nw) {s s' : Schedule} {v : Veh} {path : List Nat}
+    {rm : Option (List Nat)} (hi : ListInv s) (hd : DummyInv s) (ho : ToursOK nw s.tours) (hp : PathOK nw path)
+    (hf : FormCount nw s.tours s.formations)
+    (h : addPathToVehicleTour nw s v path = .ok (s', rm)) : FormCount nw s'.tours s'.formations := by
+  unfold addPathToVehicleTour at h
+  inv_do h
+  all_goals (try contradiction)
+  all_goals (try (cases h))
+  all_goals (try (simp only [pure, Except.pure, Except.ok.injEq] at *))
+  all_goals (try subst_vars)
+  all_goals (
+    have hold := unwrapO_ok (by assumption : unwrapO (assocGet? s.tours v) _ = .ok _)
+    have hv' := isVehicle_of_tour hi hold
+    have hnd := vehicle_not_dummy hi hd hv'
+    have hins := insert_occ nw hn.dt hn.wf hn.ap _ _ path _ (ho v _ hold) hp (by assumption)
+    intro n w
+    have c1 := updateTrainFormation_count nw s _ none (some v) path s.formations _ _ _ (by assumption) n w
+    rw [indO_realOf_none, indO_realOf_of_not_dummy hnd] at c1
+    have h0 := hf n w
+    have hi' := hins n
+    show (formOf _ n).count w = tourOcc nw (assocSet s.tours v _) w n
+    rw [tourOcc_set]
+    first
+    | (-- a conflict path was displaced
+       have c2 := updateTrainFormation_count nw s _ (some v) none _ _ _ _ _ (by assumption) n w
+       rw [indO_realOf_none, indO_realOf_of_not_dummy hnd] at c2
+       by_cases e : w = v
+       · subst e
+         rw [tourOcc_of_get hold] at h0
+         simp only [↓reduceIte, Option.getD_some] at c1 c2 hi' ⊢
+         omega
+       · have e' : ¬ v = w := fun h => e h.symm
+         simp only [e, e', ↓reduceIte] at c1 c2 ⊢
+         omega)
+    | (by_cases e : w = v
+       · subst e
+         rw [tourOcc_of_get hold] at h0
+         simp only [↓reduceIte, Option.getD_none, occ_nil] at c1 hi' ⊢
+         omega
+       · have e' : ¬ v = w := fun h => e h.symm
+         simp only [e, e', ↓reduceIte] at c1 ⊢
+         omega))
+
+theorem utc_tours {s : Schedule} {tours dummyTours : Tours} {costs : Nat} {v : Veh} {t : Tour}
+    {r : Tours × Tours × Nat} (h : updateTourAndCosts s tours dummyTours costs v t = .ok r) :
+    r.1 = if s.isDummy v then tours else assocSet tours v t := by
+  unfold updateTourAndCosts at h
+  split at h
+  · rename_i hdm
+    simp only [pure, Except.pure, Except.ok.injEq] at h; rw [← h]; simp [hdm]
+  · rename_i hdm
+    obtain ⟨old, _, h⟩ := bind_ok h
+    obtain ⟨c', _, h⟩ := bind_ok h
+    simp only [pure, Except.pure, Except.ok.injEq] at h; rw [← h]; simp [hdm]
+
+theorem rmSeg_forms {nw : Network} {s s' : Schedule} {v : Veh} {a b : Nat}
+    (hi : ListInv s) (hd : DummyInv s) (hf : FormCount nw s.tours s.formations)
+    (h : removeSegment nw s v a b = .ok s') : FormCount nw s'.tours s'.formations := by
+  unfold removeSegment at h
+  inv_do h
+  all_goals (try contradiction)
+  all_goals (try (cases h))
+  all_goals (first
+    | exact delete_forms hi hd hf (by assumption)
+    | (have hv' : s.isVehicle v = true := by simpa using (by assumption : ¬ (!s.isVehicle v) = true)
+       have htour := unwrapO_ok (by assumption : unwrapO (s.tourOf? v) _ = .ok _)
+       rw [(tourOf_vehicle hi hv').1] at htour
+       have hnd := vehicle_not_dummy hi hd hv'
+       subst_vars
+       have hrem := remove_some_occ (by assumption : Tour.remove nw _ a b = .ok (some _, _))
+       have hutc := utc_tours (by assumption : updateTourAndCosts s s.tours _ _ v _ = .ok _)
+       simp only [hnd, Bool.false_eq_true, ↓reduceIte] at hutc
+       intro n w
+       have c1 := updateTrainFormation_count nw s _ (some v) none _ s.formations _ _ _ (by assumption) n w
+       rw [indO_realOf_none, indO_realOf_of_not_dummy hnd] at c1
+       have h0 := hf n w
+       have hr := hrem n
+       show (formOf _ n).count w = tourOcc nw _ w n
+       rw [hutc, tourOcc_set]
+       by_cases e : w = v
+       · subst e
+         rw [tourOcc_of_get htour] at h0
+         simp only [↓reduceIte] at c1 ⊢
+         omega
+       · have e' : ¬ v = w := fun h => e h.symm
+         simp only [e, e', ↓reduceIte] at c1 ⊢
+         omega))
+
+/-! ### depot replacement leaves the activities alone -/
+
+theorem replaceStartDepot_occ {nw : Network} {t t' : Tour} {d : Nat} (ht : TourOK nw t)
+    (h : t.replaceStartDepot nw d = .ok t') (n : Nat) : occ nw t'.nodes n = occ nw t.nodes n := by
+  unfold Tour.replaceStartDepot at h
+  split at h
+  · cases h
+  · split at h
+    · cases h
+    · rename_i hd
+      have hd' : (nw.node d).isDepot = true := by
+        have : (nw.node d).isStartDepot = true := by simpa using hd
+        simp [Node.isDepot, this]
+      have hnodes : t'.nodes = t.nodes.set 0 d := by
+        inv_do h
+        all_goals (try contradiction)
+        all_goals (try (cases h))
+        all_goals (simp only [pure, Except.pure, Except.ok.injEq] at *)
+        all_goals (subst_vars)
+        all_goals rfl
+      rw [hnodes]
+      obtain ⟨sd, mid, ed, hl, hsd, _, _, _⟩ := ht.shape
+      apply occ_set_depot nw t.nodes 0 d n hd'
+      intro x hx
+      rw [hl] at hx
+      simp at hx
+      rw [← hx]; simp [Node.isDepot, hsd]
+
+theorem replaceEndDepot_occ {nw : Network} {t t' : Tour} {d : Nat} (ht : TourOK nw t)
+    (h : t.replaceEndDepot nw d = .ok t') (n : Nat) : occ nw t'.nodes n = occ nw t.nodes n := by
+  unfold Tour.replaceEndDepot at h
+  split at h
+  · cases h
+  · split at h
+    · cases h
+    · rename_i hd
+      have hd' : (nw.node d).isDepot = true := by
+        have : (nw.node d).isEndDepot = true := by simpa using hd
+        simp [Node.isDepot, this]
+      have hnodes : t'.nodes = t.nodes.set (t.nodes.length - 1) d := by
+        inv_do h
+        all_goals (try contradiction)
+        all_goals (try (cases h))
+        all_goals (simp only [pure, Except.pure, Except.ok.injEq] at *)
+        all_goals (subst_vars)
+        all_goals rfl
+      rw [hnodes]
+      obtain ⟨sd, mid, ed, hl, _, hed, _, _⟩ := ht.shape
+      apply occ_set_depot nw t.nodes (t.nodes.length - 1) d n hd'
+      intro x hx
+      rw [hl] at hx
+      have : (sd :: (mid ++ [ed]))[(sd :: (mid ++ [ed])).length - 1]? = some ed := by
+        simp [List.getElem?_append_right]
+      rw [this] at hx
+      simp at hx
+      rw [← hx]; simp [Node.isDepot, hed]
+
+theorem improveDepotsOfTour_occ {nw : Network} {t nt : Tour} {vt : Nat} {u : DepotUsage} (ht : TourOK nw t)
+    (h : improveDepotsOfTour nw t vt u = .ok nt) (n : Nat) : occ nw nt.nodes n = occ nw t.nodes n := by
+  unfold improveDepotsOfTour at h
+  obtain ⟨fnd, _, h⟩ := bind_ok h
+  obtain ⟨ns, _, h⟩ := bind_ok h
+  obtain ⟨cur, _, h⟩ := bind_ok h
+  dsimp only at h
+  have tail : ∀ t1, TourOK nw t1 → (do
+      let lnd ← unwrapO (lastNonDepot nw t1) "last_non_depot().unwrap()"
+      let ne ← unwrapR (findBestEndDepot nw lnd) "find_best_end_depot_for_despawning(..).unwrap()"
+      let curE ← Transition.endDepotU nw t1
+      if (ne != curE) = true then unwrapR (replaceEndDepot nw t1 ne) "replace_end_depot(..).unwrap()" else pure t1) = .ok nt →
+      occ nw nt.nodes n = occ nw t1.nodes n := by
+    intro t1 h1 h
+    obtain ⟨lnd, _, h⟩ := bind_ok h
+    obtain ⟨ne, _, h⟩ := bind_ok h
+    obtain ⟨curE, _, h⟩ := bind_ok h
+    split at h
+    · exact replaceEndDepot_occ h1 (unwrapR_ok h) n
+    · simp only [pure, Except.pure, Except.ok.injEq] at h; rw [← h]
+  split at h
+  · obtain ⟨t1, ht1, h⟩ := bind_ok h
+    rw [tail t1 (replaceStartDepot_tourOK nw _ _ _ ht (unwrapR_ok ht1)) h]
+    exact replaceStartDepot_occ ht (unwrapR_ok ht1) n
+  · obtain ⟨t1, ht1, h⟩ := bind_ok h
+    simp only [pure, Except.pure, Except.ok.injEq] at ht1
+    subst ht1
+    exact tail _ ht h
+
+/-! ### the three folds that re-choose depots, recomputation, transition replacement -/
+
+def SameOcc (nw : Network) (T0 T : Tours) : Prop := ∀ w n, tourOcc nw T w n = tourOcc nw T0 w n
+
+theorem formCount_of_sameOcc {nw : Network} {T0 T : Tours} {forms : List (Nat × List Veh)}
+    (hf : FormCount nw T0 forms) (h : SameOcc nw T0 T) : FormCount nw T forms := by
+  intro n w; rw [hf n w, h w n]
+
+theorem fold_sameOcc (nw : Network) (T0 : Tours) (F : Acc → Veh → R Acc) (L0 : List Veh)
+    (hF : ∀ acc v acc', v ∈ L0 → F acc v = .ok acc' →
+      ∃ nt, acc'.1 = assocSet acc.1 v nt ∧ ∀ n, occ nw nt.nodes n = tourOcc nw T0 v n) :
+    ∀ (L : List Veh) (acc acc' : Acc), (∀ v ∈ L, v ∈ L0) → SameOcc nw T0 acc.1 → L.foldlM F acc = .ok acc' →
+      SameOcc nw T0 acc'.1
+  | [], acc, acc', _, ho, h => by
+    simp only [List.foldlM_nil, pure, Except.pure, Except.ok.injEq] at h
+    rw [← h]; exact ho
+  | x :: xs, acc, acc', hL, ho, h => by
+    rw [List.foldlM_cons] at h
+    obtain ⟨a1, h1, h⟩ := bind_ok h
+    obtain ⟨nt, hset, hnt⟩ := hF acc x a1 (hL x (by simp)) h1
+    refine fold_sameOcc nw T0 F L0 hF xs a1 acc' (fun v hv => hL v (by simp [hv])) ?_ h
+    intro w n
+    rw [hset, tourOcc_set]
+    by_cases e : w = x
+    · subst e; simp only [↓reduceIte]; exact hnt n
+    · simp only [e, ↓reduceIte]; exact ho w n
+
+theorem vehTour_occ {nw : Network} {s : Schedule} {v : Veh} {t : Tour} (hi : ListInv s)
+    (hv : s.isVehicle v = true) (h : s.tourOf? v = some t) (n : Nat) : tourOcc nw s.tours v n = occ nw t.nodes n := by
+  rw [(tourOf_vehicle hi hv).1] at h
+  exact tourOcc_of_get h n
+
+theorem improveStep_occ {nw : Network} {s : Schedule} {acc acc' : Acc} {v : Veh} (hi : ListInv s)
+    (ho : ToursOK nw s.tours) (h : improveStep nw s acc v = .ok acc') :
+    ∃ nt, acc'.1 = assocSet acc.1 v nt ∧ ∀ n, occ nw nt.nodes n = tourOcc nw s.tours v n := by
+  obtain ⟨tours, u, costs⟩ := acc
+  unfold improveStep at h
+  dsimp only at h
+  obtain ⟨t, ht, h⟩ := bind_ok h
+  obtain ⟨vt, hvt, h⟩ := bind_ok h
+  obtain ⟨nt, hnt, h⟩ := bind_ok h
+  obtain ⟨c, hc, h⟩ := bind_ok h
+  obtain ⟨sd, _, h⟩ := bind_ok h
+  obtain ⟨ed, _, h⟩ := bind_ok h
+  simp only [pure, Except.pure, Except.ok.injEq] at h
+  subst h
+  have hv := typed_isVehicle (unwrapO_ok hvt)
+  refine ⟨nt, rfl, fun n => ?_⟩
+  rw [vehTour_occ hi hv (unwrapO_ok ht) n]
+  exact improveDepotsOfTour_occ (vehTour_ok hi ho hv (unwrapO_ok ht)) hnt n
+
+theorem greedyStep_occ {nw : Network} {s : Schedule} {acc acc' : Acc} {v : Veh} (hi : ListInv s)
+    (ho : ToursOK nw s.tours) (hv : s.isVehicle v = true) (h : greedyStep nw s acc v = .ok acc') :
+    ∃ nt, acc'.1 = assocSet acc.1 v nt ∧ ∀ n, occ nw nt.nodes n = tourOcc nw s.tours v n := by
+  obtain ⟨tours, u, costs⟩ := acc
+  unfold greedyStep at h
+  dsimp only at h
+  obtain ⟨t, ht, h⟩ := bind_ok h
+  obtain ⟨lnd, _, h⟩ := bind_ok h
+  split at h
+  · obtain ⟨ne, _, h⟩ := bind_ok h
+    obtain ⟨nt, hnt, h⟩ := bind_ok h
+    obtain ⟨c, hc, h⟩ := bind_ok h
+    obtain ⟨u', _, h⟩ := bind_ok h
+    simp only [pure, Except.pure, Except.ok.injEq] at h
+    subst h
+    refine ⟨nt, rfl, fun n => ?_⟩
+    rw [vehTour_occ hi hv (unwrapO_ok ht) n]
+    exact replaceEndDepot_occ (vehTour_ok hi ho hv (unwrapO_ok ht)) (unwrapR_ok hnt) n
+  · simp [bind, Except.bind] at h
+
+theorem endStep_occ {nw : Network} {s : Schedule} {acc acc' : Acc} {v : Veh} (hi : ListInv s)
+    (ho : ToursOK nw s.tours) (h : C05.endStep nw s acc v = .ok acc') :
+    ∃ nt, acc'.1 = assocSet acc.1 v nt ∧ ∀ n, occ nw nt.nodes n = tourOcc nw s.tours v n := by
+  obtain ⟨tours, u, costs⟩ := acc
+  unfold C05.endStep at h
+  dsimp only at h
+  obtain ⟨t, ht, h⟩ := bind_ok h
+  obtain ⟨vt, hvt, h⟩ := bind_ok h
+  obtain ⟨tr, htr, h⟩ := bind_ok h
+  obtain ⟨next, hnext, h⟩ := bind_ok h
+  obtain ⟨ntour, hntour, h⟩ := bind_ok h
+  obtain ⟨sd, hsd, h⟩ := bind_ok h
+  obtain ⟨nt, hnt, h⟩ := bind_ok h
+  obtain ⟨c, _, h⟩ := bind_ok h
+  obtain ⟨u', _, h⟩ := bind_ok h
+  simp only [pure, Except.pure, Except.ok.injEq] at h
+  subst h
+  have hv := typed_isVehicle (unwrapO_ok hvt)
+  refine ⟨nt, rfl, fun n => ?_⟩
+  rw [vehTour_occ hi hv (unwrapO_ok ht) n]
+  exact replaceEndDepot_occ (vehTour_ok hi ho hv (unwrapO_ok ht)) (unwrapR_ok hnt) n
+
+theorem sameOcc_refl (nw : Network) (T : Tours) : SameOcc nw T T := fun _ _ => rfl
+
+theorem endConsistent_sameOcc {nw : Network} {s s' : Schedule} (hi : ListInv s) (ho : ToursOK nw s.tours)
+    (h : reassignEndDepotsConsistent nw s = .ok s') : SameOcc nw s.tours s'.tours := by
+  have hunf : reassignEndDepotsConsistent nw s = (do
+      let (tours, usage, cst) ← (s.vehiclesAll nw).foldlM (C05.endStep nw s) (s.tours, s.depotUsage, s.costs)
+      let (trans, viol) ← updateTransitionsFast nw s s.vehicles tours (s.vehiclesAll nw) [] s.transitions s.violation
+      pure { s with tours, transitions := trans, depotUsage := usage, violation := viol, costs := cst }) := rfl
+  rw [hunf] at h
+  obtain ⟨⟨tours, usage, cst⟩, hfold, h⟩ := bind_ok h
+  dsimp only at h
+  obtain ⟨⟨trans, viol⟩, _, h⟩ := bind_ok h
+  simp only [pure, Except.pure, Except.ok.injEq] at h
+  rw [← h]
+  exact fold_sameOcc nw s.tours (C05.endStep nw s) (s.vehiclesAll nw)
+    (fun acc v acc' _ hstep => endStep_occ hi ho hstep)
+    (s.vehiclesAll nw) (s.tours, s.depotUsage, s.costs) (tours, usage, cst) (fun _ h => h) (sameOcc_refl nw _) hfold
+
+theorem endGreedy_sameOcc {nw : Network} {s s' : Schedule} (hi : ListInv s) (ho : ToursOK nw s.tours)
+    (h : reassignEndDepotsGreedily nw s = .ok s') : SameOcc nw s.tours s'.tours := by
+  have hunf : reassignEndDepotsGreedily nw s = (do
+      let (tours, usage, cst) ← (s.vehiclesAll nw).foldlM (greedyStep nw s) (s.tours, s.depotUsage, s.costs)
+      let (trans, viol) ← recomputeTransitions nw s.idsByType tours nw.typeIdxs s.transitions s.violation
+      pure { s with tours, transitions := trans, depotUsage := usage, violation := viol, costs := cst }) := rfl
+  rw [hunf] at h
+  obtain ⟨⟨tours, usage, cst⟩, hfold, h⟩ := bind_ok h
+  dsimp only at h
+  obtain ⟨⟨trans, viol⟩, _, h⟩ := bind_ok h
+  simp only [pure, Except.pure, Except.ok.injEq] at h
+  rw [← h]
+  exact fold_sameOcc nw s.tours (greedyStep nw s) (s.vehiclesAll nw)
+    (fun acc v acc' hv hstep => greedyStep_occ hi ho (listed_isVehicle hi hv) hstep)
+    (s.vehiclesAll nw) (s.tours, s.depotUsage, s.costs) (tours, usage, cst) (fun _ h => h) (sameOcc_refl nw _) hfold
+
+theorem improve_sameOcc {nw : Network} {s s' : Schedule} {vs : Option (List Veh)} (hi : ListInv s)
+    (ho : ToursOK nw s.tours) (h : improveDepots nw s vs = .ok s') : SameOcc nw s.tours s'.tours := by
+  unfold improveDepots at h
+  dsimp only at h
+  obtain ⟨usage0, _, h⟩ := bind_ok h
+  have hstep : ∀ (u0 : DepotUsage) (r : Acc),
+      (vs.getD (s.vehiclesAll nw)).foldlM (improveStep nw s) (s.tours, u0, s.costs) = .ok r → SameOcc nw s.tours r.1 := by
+    intro u0 r hfold
+    exact fold_sameOcc nw s.tours (improveStep nw s) (vs.getD (s.vehiclesAll nw))
+      (fun acc v acc' _ hst => improveStep_occ hi ho hst)
+      _ (s.tours, u0, s.costs) r (fun _ h => h) (sameOcc_refl nw _) hfold
+  obtain ⟨⟨tours, usage, cst⟩, hfold, h⟩ := bind_ok h
+  have hc := hstep usage0 (tours, usage, cst) hfold
+  inv_do h
+  all_goals (try contradiction)
+  all_goals (try (cases h))
+  all_goals exact hc
+
+/-! ### `update_tours` (the bookkeeping shared by fit and override) -/
+
+/-- the tour map after the provider's part of `update_tours` -/
+def provTours (s : Schedule) (p : Veh) (newProv : Option Tour) : Tours :=
+  if s.isDummy p then s.tours else
+  match newProv with
+  | some t => assocSet s.tours p t
+  | none => if s.isVehicle p then assocErase s.tours p else s.tours
+
+/-- occurrences on what is left of the provider's tour (nothing when no tour is left) -/
+def shrunkOcc (nw : Network) (shrunk : Option Tour) (n : Nat) : Nat :=
+  match shrunk with
+  | some t => occ nw t.nodes n
+  | none => 0
+
+theorem updateTours_spec {nw : Network} {s : Schedule} {w' : Work} {p r : Veh} {newProv : Option Tour}
+    {newRecv : Tour} {moved : List Nat}
+    (h : updateTours nw s (Work.ofSchedule s) (some p) newProv r newRecv moved = .ok w') :
+    w'.tours = (if s.isDummy r then provTours s p newProv else assocSet (provTours s p newProv) r newRecv) ∧
+    ∀ n x, (formOf w'.forms n).count x + indO (realOf s (some p)) x * occ nw moved n
+      = (formOf s.formations n).count x + indO (realOf s (if s.isVehicle r then some r else none)) x * occ nw moved n := by
+  unfold updateTours at h
+  dsimp only at h
+  inv_do h
+  all_goals (try contradiction)
+  all_goals (try (cases h))
+  all_goals (try (simp only [pure, Except.pure, Except.ok.injEq] at *))
+  all_goals (try subst_vars)
+  all_goals (
+    have hr := utc_tours (by assumption : updateTourAndCosts s _ _ _ r newRecv = .ok _)
+    have hc := fun n x => updateTrainFormation_count nw s _ (some p) (if s.isVehicle r then some r else none)
+      moved _ _ _ _ (by assumption) n x
+    refine ⟨?_, hc⟩
+    first
+    | (have hp := utc_tours (by assumption : updateTourAndCosts s _ _ _ p _ = .ok _)
+       simp_all [provTours, Work.ofSchedule])
+    | simp_all [provTours, Work.ofSchedule])
+
+theorem tourOf_not_dummy {s : Schedule} {v : Veh} {t : Tour} (h : s.tourOf? v = some t) (hnd : s.isDummy v = false) :
+    assocGet? s.tours v = some t := by
+  unfold Schedule.tourOf? at h
+  split at h
+  · rename_i t' ht'; rw [ht']; exact h
+  · unfold Schedule.isDummy at hnd; rw [h] at hnd; cases hnd
+
+theorem dummy_not_vehicle {s : Schedule} (hi : ListInv s) (hd : DummyInv s) {v : Veh} (h : s.isDummy v = true) :
+    s.isVehicle v = false := by
+  cases hv : s.isVehicle v with
+  | false => rfl
+  | true => have := vehicle_not_dummy hi hd hv; rw [h] at this; cases this
+
+/-- provider side of a reassignment: whatever left the provider's tour (`moved`), counted over
+    activities, is missing from its entry in the tour map -/
+theorem provTours_occ {nw : Network} {s : Schedule} {p : Veh} {pt : Tour} {shrunk : Option Tour} {moved : List Nat}
+    (hi : ListInv s) (hpt : s.tourOf? p = some pt)
+    (hocc : s.isDummy p = false → ∀ n, shrunkOcc nw shrunk n + occ nw moved n = occ nw pt.nodes n)
+    (x : Veh) (n : Nat) :
+    tourOcc nw (provTours s p shrunk) x n + indO (realOf s (some p)) x * occ nw moved n = tourOcc nw s.tours x n := by
+  unfold provTours
+  by_cases hdm : s.isDummy p = true
+  · simp only [hdm, ↓reduceIte, indO_realOf_dummy hdm, Nat.zero_mul, Nat.add_zero]
+  · have hdm' : s.isDummy p = false := by simpa using hdm
+    have hget := tourOf_not_dummy hpt hdm'
+    have hv := isVehicle_of_tour hi hget
+    have ho := hocc hdm' n
+    rw [indO_realOf_of_not_dummy hdm']
+    simp only [hdm', Bool.false_eq_true, ↓reduceIte]
+    cases shrunk with
+    | some t =>
+      simp only [shrunkOcc] at ho ⊢
+      rw [tourOcc_set]
+      by_cases e : x = p
+      · subst e; rw [tourOcc_of_get hget]; simp only [↓reduceIte, Nat.one_mul]; omega
+      · have e' : ¬ p = x := fun h => e h.symm
+        simp only [e, e', ↓reduceIte, Nat.zero_mul, Nat.add_zero]
+    | none =>
+      simp only [hv, ↓reduceIte, shrunkOcc] at ho ⊢
+      rw [tourOcc_erase]
+      by_cases e : x = p
+      · subst e; rw [tourOcc_of_get hget]; simp only [↓reduceIte, Nat.one_mul]; omega
+      · have e' : ¬ p = x := fun h => e h.symm
+        simp only [e, e', ↓reduceIte, Nat.zero_mul, Nat.add_zero]
+
+/-- receiver side of a reassignment -/
+theorem recvTours_occ {nw : Network} {s : Schedule} {r : Veh} {rt newRecv : Tour} {PT : Tours}
+    {moved dropped : List Nat} (hi : ListInv s) (hd : DummyInv s) (hrt : s.tourOf? r = some rt)
+    (hPT : ∀ n, tourOcc nw PT r n = tourOcc nw s.tours r n)
+    (hocc : s.isVehicle r = true → ∀ n, occ nw newRecv.nodes n + occ nw dropped n = occ nw rt.nodes n + occ nw moved n)
+    (x : Veh) (n : Nat) :
+    tourOcc nw (if s.isDummy r then PT else assocSet PT r newRecv) x n
+        + indO (realOf s (if s.isVehicle r then some r else none)) x * occ nw dropped n
+      = tourOcc nw PT x n + indO (realOf s (if s.isVehicle r then some r else none)) x * occ nw moved n := by
+  by_cases hdm : s.isDummy r = true
+  · have hv := dummy_not_vehicle hi hd hdm
+    simp only [hdm, hv, ↓reduceIte, Bool.false_eq_true, indO_realOf_none, Nat.zero_mul, Nat.add_zero]
+  · have hdm' : s.isDummy r = false := by simpa using hdm
+    have hget := tourOf_not_dummy hrt hdm'
+    have hv := isVehicle_of_tour hi hget
+    have ho := hocc hv n
+    simp only [hdm', hv, Bool.false_eq_true, ↓reduceIte]
+    rw [indO_realOf_of_not_dummy hdm', tourOcc_set]
+    by_cases e : x = r
+    · subst e
+      have := hPT n
+      rw [tourOcc_of_get hget] at this
+      simp only [↓reduceIte, Nat.one_mul]; omega
+    · have e' : ¬ r = x := fun h => e h.symm
+      simp only [e, e', ↓reduceIte, Nat.zero_mul, Nat.add_zero]
+
+theorem provTours_other {nw : Network} {s : Schedule} {p r : Veh} {shrunk : Option Tour} (hne : p ≠ r) (n : Nat) :
+    tourOcc nw (provTours s p shrunk) r n = tourOcc nw s.tours r n := by
+  have e : ¬ r = p := fun h => hne h.symm
+  unfold provTours
+  split
+  · rfl
+  · split
+    · rw [tourOcc_set]; simp only [e, ↓reduceIte]
+    · split
+      · rw [tourOcc_erase]; simp only [e, ↓reduceIte]
+      · rfl
+
+/-! ### reassignments -/
+
+/-- the shared core of `fit_reassign` and `override_reassign`: after `update_tours`, the formations
+    agree with the new tours except that the (real) receiver is still listed on the nodes the
+    insertion displaced from its tour -/
+theorem reassign_core {nw : Network} {s : Schedule} {p r : Veh} {pt rt newRecv : Tour} {shrunk : Option Tour}
+    {moved dropped : List Nat} {w : Work} (hi : ListInv s) (hd : DummyInv s)
+    (hf : FormCount nw s.tours s.formations) (hne : p ≠ r)
+    (hpt : s.tourOf? p = some pt) (hrt : s.tourOf? r = some rt)
+    (hprov : s.isDummy p = false → ∀ n, shrunkOcc nw shrunk n + occ nw moved n = occ nw pt.nodes n)
+    (hrecv : s.isVehicle r = true → ∀ n, occ nw newRecv.nodes n + occ nw dropped n = occ nw rt.nodes n + occ nw moved n)
+    (hut : updateTours nw s (Work.ofSchedule s) (some p) shrunk r newRecv moved = .ok w) (n : Nat) (x : Veh) :
+    (formOf w.forms n).count x
+      = tourOcc nw w.tours x n + indO (realOf s (if s.isVehicle r then some r else none)) x * occ nw dropped n := by
+  obtain ⟨htours, hcnt⟩ := updateTours_spec hut
+  have hC := hcnt n x
+  have hA := provTours_occ (nw := nw) (shrunk := shrunk) (moved := moved) hi hpt hprov x n
+  have hB := recvTours_occ (nw := nw) (newRecv := newRecv) (PT := provTours s p shrunk) (moved := moved)
+    (dropped := dropped) hi hd hrt (fun n => provTours_other hne n) hrecv x n
+  have hF := hf n x
+  rw [htours]
+  generalize indO (realOf s (some p)) x * occ nw moved n = A at *
+  generalize indO (realOf s (if s.isVehicle r then some r else none)) x * occ nw moved n = B at *
+  generalize indO (realOf s (if s.isVehicle r then some r else none)) x * occ nw dropped n = C at *
+  omega
+
+theorem override_leaf {nw : Network} (hn : NetHyp nw) {s : Schedule} {p r : Veh} {a b : Nat} {pt rt : Tour}
+    {shrunk : Option Tour} {path : List Nat} {ins : Tour × Option (List Nat)} {w : Work} {site1 site2 : String}
+    (hi : ListInv s) (hd : DummyInv s) (ho : ToursOK nw s.tours) (hf : FormCount nw s.tours s.formations)
+    (hne : p ≠ r)
+    (hpt' : unwrapO (s.tourOf? p) site1 = .ok pt) (hrt' : unwrapO (s.tourOf? r) site2 = .ok rt)
+    (hrem : Tour.remove nw pt a b = .ok (shrunk, path))
+    (hchk : ¬ (s.isDummy p && s.isVehicle r && !(Tour.isChain nw path)) = true)
+    (hins : insertPath nw true rt path = .ok ins)
+    (hut : updateTours nw s (Work.ofSchedule s) (some p) shrunk r ins.1 path = .ok w) (n : Nat) (x : Veh) :
+    (formOf w.forms n).count x = tourOcc nw w.tours x n
+      + indO (realOf s (if s.isVehicle r then some r else none)) x * occ nw (ins.2.getD []) n := by
+  have hpt := unwrapO_ok hpt'
+  have hrt := unwrapO_ok hrt'
+  have hprov : s.isDummy p = false → ∀ n, shrunkOcc nw shrunk n + occ nw path n = occ nw pt.nodes n := by
+    intro hdm n
+    have hget := tourOf_not_dummy hpt hdm
+    have hok := ho p _ hget
+    cases shrunk with
+    | some t => have := remove_some_occ hrem n; simp only [shrunkOcc]; omega
+    | none => have := remove_none_occ hok hrem n; simp only [shrunkOcc]; omega
+  have hrecv : s.isVehicle r = true → ∀ n, occ nw ins.1.nodes n + occ nw (ins.2.getD []) n
+      = occ nw rt.nodes n + occ nw path n := by
+    intro hv n
+    have hndr := vehicle_not_dummy hi hd hv
+    have hget := tourOf_not_dummy hrt hndr
+    have hpath : PathOK nw path := by
+      by_cases hdm : s.isDummy p = true
+      · simp only [hdm, hv, Bool.and_self, Bool.true_and] at hchk
+        exact ⟨chain_of_neg (by simpa using hchk), (removed_facts hrem).1⟩
+      · have hdm' : s.isDummy p = false := by simpa using hdm
+        exact removed_pathOK (ho p _ (tourOf_not_dummy hpt hdm')) hrem
+    exact insert_occ nw hn.dt hn.wf hn.ap rt ins.1 path ins.2 (ho r _ hget) hpath hins n
+  exact reassign_core hi hd hf hne hpt hrt hprov hrecv hut n x
+
+theorem override_forms {nw : Network} (hn : NetHyp nw) {s s' : Schedule} {p r : Veh} {a b : Nat} {d : Option Veh}
+    (hi : ListInv s) (hd : DummyInv s) (ho : ToursOK nw s.tours) (hf : FormCount nw s.tours s.formations)
+    (hne : p ≠ r) (h : overrideReassign nw s p r a b = .ok (s', d)) : FormCount nw s'.tours s'.formations := by
+  unfold overrideReassign at h
+  inv_do h
+  all_goals (try contradiction)
+  all_goals (try (cases h))
+  all_goals (try (simp only [pure, Except.pure, Except.ok.injEq] at *))
+  all_goals (try subst_vars)
+  all_goals (
+    have hcore := fun n x => override_leaf hn hi hd ho hf hne (by assumption) (by assumption) (by assumption)
+      (by assumption) (by assumption) (by assumption) n x
+    intro n x
+    have hc := hcore n x
+    try dsimp only
+    first
+    | (rw [(by assumption : Prod.snd _ = none)] at hc
+       simpa [occ_nil] using hc)
+    | (have c2 := updateTrainFormation_count nw s _ (some r) none _ _ _ _ _ (by assumption) n x
+       have hv : s.isVehicle r = true := by assumption
+       rw [(by assumption : Prod.snd _ = some _)] at hc
+       simp only [hv, ↓reduceIte, Option.getD_some, indO_realOf_none, Nat.zero_mul, Nat.add_zero] at hc c2
+       omega)
+    | (have hv : ¬ s.isVehicle r = true := by assumption
+       rw [(by assumption : Prod.snd _ = some _)] at hc
+       rw [if_neg hv] at hc
+       simp only [indO_realOf_none, Nat.zero_mul, Nat.add_zero] at hc
+       exact hc))
+
+/-! ### the remaining modifications and the step theorem -/
+
+theorem dummySpawn_forms {nw : Network} {s s' : Schedule} {d : Veh} {vt : Nat} {v : Veh}
+    (hi : ListInv s) (hd : DummyInv s) (hf : FormCount nw s.tours s.formations)
+    (h : spawnToReplaceDummy nw s d vt = .ok (s', v)) : FormCount nw s'.tours s'.formations := by
+  unfold spawnToReplaceDummy at h
+  inv_do h
+  all_goals (try contradiction)
+  all_goals (try (cases h))
+  all_goals (
+    rename_i s1 hdel
+    have hcore := deleteDummy_core hdel
+    have hi1 := deleteDummy_listInv hi hdel
+    have hd1 := deleteDummy_dk hd hdel
+    have hforms := deleteDummy_forms hdel
+    have htours : s1.tours = s.tours := congrArg Core.tours hcore
+    exact spawn_forms hi1 hd1 (by rw [htours, hforms]; exact hf) h)
+
+theorem recompute_tours {nw : Network} {s s' : Schedule} {vts : Option (List Nat)}
+    (h : recomputeTransitionsFor nw s vts = .ok s') : s'.tours = s.tours := by
+  unfold recomputeTransitionsFor at h
+  inv_do h
+  all_goals (try contradiction)
+  all_goals (try (cases h))
+  all_goals rfl
+
+/-- the invariant of this file: listing, dummy keys, valid real tours, formation counts -/
+structure FInv (nw : Network) (s : Schedule) : Prop where
+  tinv : TInv nw s
+  forms : FormCount nw s.tours s.formations
+
+/-- argument conditions: provider and receiver of a reassignment differ (the neighbourhood never
+    offers a vehicle its own segment; with provider = receiver the real code, like the model, takes
+    the vehicle off the formations of nodes its tour keeps) -/
+def ArgsOKF : SOp → Prop
+  | .override p r _ _ => p ≠ r
+  | .fit p r _ _ => p ≠ r
+  | _ => True
+
+/-- step theorem without `fit_reassign` (whose loop is handled in Props/C10Fit) -/
+theorem forms_step_noFit (nw : Network) (hn : NetHyp nw) (s : Schedule) (op : SOp) (r : OpResult)
+    (hinv : FInv nw s) (hargs : ArgsOKF op) (hnofit : ∀ p q a b, op ≠ .fit p q a b)
+    (h : applyOp nw s op = .ok r) : FormCount nw r.sched.tours r.sched.formations := by
+  obtain ⟨⟨hi, hd, ho⟩, hf⟩ := hinv
+  unfold applyOp at h
+  cases op with
+  | init =>
+    simp only [pure, Except.pure, Except.ok.injEq] at h
+    rw [← h]
+    intro n v
+    show (formOf (Schedule.empty nw).formations n).count v = tourOcc nw [] v n
+    have : ∀ f, assocGet? (Schedule.empty nw).formations n = some f → f = [] := by
+      intro f hf'
+      have hm := assocGet?_mem hf'
+      simp only [Schedule.empty, List.mem_map, Prod.mk.injEq] at hm
+      obtain ⟨_, _, _, rfl⟩ := hm; rfl
+    unfold formOf tourOcc
+    cases hg : assocGet? (Schedule.empty nw).formations n with
+    | none => simp [assocGet?_nil]
+    | some f => rw [this f hg]; simp [assocGet?_nil]
+  | spawn vt path =>
+    obtain ⟨⟨s', v⟩, hs, h⟩ := bind_ok h
+    simp only [pure, Except.pure, Except.ok.injEq] at h
+    rw [← h]; exact spawn_forms hi hd hf hs
+  | dummySpawn d vt =>
+    obtain ⟨⟨s', v⟩, hs, h⟩ := bind_ok h
+    simp only [pure, Except.pure, Except.ok.injEq] at h
+    rw [← h]; exact dummySpawn_forms hi hd hf hs
+  | delete v =>
+    obtain ⟨s', hs, h⟩ := bind_ok h
+    simp only [pure, Except.pure, Except.ok.injEq] at h
+    rw [← h]; exact delete_forms hi hd hf hs
+  | addPath v path =>
+    dsimp only at h
+    split at h
+    · rename_i p hp
+      obtain ⟨⟨s', rm⟩, hs, h⟩ := bind_ok h
+      simp only [pure, Except.pure, Except.ok.injEq] at h
+      rw [← h]; exact addPath_forms hn hi hd ho (pathNew_ok hp) hf hs
+    · cases h
+  | rmSeg v a b =>
+    obtain ⟨s', hs, h⟩ := bind_ok h
+    simp only [pure, Except.pure, Except.ok.injEq] at h
+    rw [← h]; exact rmSeg_forms hi hd hf hs
+  | fit p q a b => exact absurd rfl (hnofit p q a b)
+  | override p q a b =>
+    obtain ⟨⟨s', d⟩, hs, h⟩ := bind_ok h
+    simp only [pure, Except.pure, Except.ok.injEq] at h
+    rw [← h]; exact override_forms hn hi hd ho hf hargs hs
+  | improve vs =>
+    obtain ⟨s', hs, h⟩ := bind_ok h
+    simp only [pure, Except.pure, Except.ok.injEq] at h
+    rw [← h]; show FormCount nw s'.tours s'.formations
+    rw [improve_forms hs]; exact formCount_of_sameOcc hf (improve_sameOcc hi ho hs)
+  | endGreedy =>
+    obtain ⟨s', hs, h⟩ := bind_ok h
+    simp only [pure, Except.pure, Except.ok.injEq] at h
+    rw [← h]; show FormCount nw s'.tours s'.formations
+    rw [endGreedy_forms hs]; exact formCount_of_sameOcc hf (endGreedy_sameOcc hi ho hs)
+  | recompute vts =>
+    obtain ⟨s', hs, h⟩ := bind_ok h
+    simp only [pure, Except.pure, Except.ok.injEq] at h
+    rw [← h]; show FormCount nw s'.tours s'.formations
+    rw [recompute_forms hs, recompute_tours hs]; exact hf
+  | endConsistent =>
+    obtain ⟨s', hs, h⟩ := bind_ok h
+    simp only [pure, Except.pure, Except.ok.injEq] at h
+    rw [← h]; show FormCount nw s'.tours s'.formations
+    rw [(C05.C05_reassign nw s s' hs).2.2.2.1]; exact formCount_of_sameOcc hf (endConsistent_sameOcc hi ho hs)
+  | setTrans vt v ci =>
+    obtain ⟨tr, _, h⟩ := bind_ok h
+    obtain ⟨moved, _, h⟩ := bind_ok h
+    simp only [pure, Except.pure, Except.ok.injEq] at h
+    rw [← h]; exact hf
+
 end RSSched.C10F
